@@ -19,7 +19,9 @@ RULE = ('histories over {save_spike_clusters(random reassignment), save_metadata
 ASSUMPTIONS = ['csv parsing and number parsing/formatting are transport: foreign file texts are parsed with the csv module '
                'and cells classified with int()/float() by the harness before they reach the Lean model',
                'the metadata field name "info" is outside the domain (cluster_info.tsv is deliberately ignored on load)',
-               'field names of different files are disjoint (glob order of metadata files is unspecified)']
+               'field names of different files are disjoint, except that ONE legacy cluster_*.csv may name a field that save_metadata also '
+               'writes (csv files are visited before tsv files; the order among several csv or several tsv files is the '
+               'directory order, unspecified, so a history never has two csv files naming the same field)']
 FIELDS = ['group', 'quality', 'n_x']
 TEXTS = ['good', 'mua', 'a\tb', 'x,y', 'say "hi"', 'noise ']
 
@@ -231,6 +233,7 @@ def rand_history(rng, spec, L):
     ops = []
     closed = False
     foreign_fields = ['ffa', 'ffb', 'ffc']
+    legacy_stem = {}
     for _ in range(L):
         if closed:
             ops.append(dict(k='reload')); closed = False
@@ -265,7 +268,9 @@ def rand_history(rng, spec, L):
                 # an old-style CSV carrying a field that save_metadata also writes: the saved TSV must win
                 ext, dl = 'csv', ','
                 ff = rng.pick(FIELDS)
-                stem = rng.pick(['cluster_%ss' % ff, 'zz_legacy_' + ff, 'cluster_' + ff])
+                # one legacy file per field in a history: the order in which the loader visits two
+                # legacy CSVs naming the same field is the directory order (unspecified)
+                stem = legacy_stem.setdefault(ff, rng.pick(['cluster_%ss' % ff, 'zz_legacy_' + ff, 'cluster_' + ff]))
                 text = dl.join(['cluster_id', ff]) + '\n' + ''.join('%d%sLEGACY%d\n' % (i, dl, i) for i in rng.sample(range(9), 3))
             elif kind == 'no_cluster_id':
                 text = dl.join(['id', ff]) + '\n' + '1%s5\n' % dl
